@@ -32,6 +32,9 @@ def make_file(rnd, big=False):
             n = snaplen
         data = bytes(rnd.randrange(256) for _ in range(min(n, 64))) * (n // 64 + 1)
         data = data[:n]
+        if n >= 14 and rnd.random() < 0.4:
+            # an Ethernet header announcing a layer this reader knows (often cut short right behind it)
+            data = data[:12] + rnd.choice([b"\x08\x00", b"\x86\xdd", b"\x81\x00"]) + data[14:]
         recs.append({"data": data, "ts_sec": rnd.choice([0, 1, 0x7FFFFFFF, 0xFFFFFFFF, rnd.randrange(1 << 32)]),
                      "ts_sub": rnd.randrange(1 << 32) if rnd.random() < 0.3 else rnd.randrange(1000000),
                      "wirelen": rnd.choice([n, n + rnd.randrange(1000), 0xFFFFFFFF])})
@@ -65,20 +68,27 @@ def damage(rnd, body, recs):
     return "trailing-garbage", body + bytes(rnd.randrange(256) for _ in range(rnd.randrange(1, 16)))
 
 
-def script_for(path, outbase, calls, via_stdin=False):
+def touch(v):
+    """looks at the layers of a record before it is written back (a read must not change what is written: records made of
+    an Ethernet header whose next layer is cut short yield an error object there, others null or a layer)"""
+    return ("let te = %s.eth; if !is_error(te) { let t4 = te.ipv4; let t6 = te.ipv6; let tv = te.vlan; "
+            "if !is_error(t4) && t4 != null { let tt = t4.tcp; let tu = t4.udp; } } " % v)
+
+
+def script_for(path, outbase, calls, via_stdin=False, look=False):
     opener = "pcap_stream(stdin)" if via_stdin else 'pcap_open("%s")' % path
     src = 'let OBS = [];\nlet f = %s;\nif is_error(f) { push(OBS, [0, "OPEN-E"]); } else {\n' % opener
     for j, c in enumerate(calls, 1):
         if c["op"] == "next":
             src += ('let r%d = pcap_read_next(f);\nif is_error(r%d) { push(OBS, [%d, "E"]); } else if r%d == null { push(OBS, [%d, "N"]); } '
                     'else { push(OBS, [%d, "R", r%d.sec, r%d.usec, r%d.caplen, r%d.wirelen]); let o%d = pcap_open("%s.%d", "w"); '
-                    'pcap_write(o%d, r%d); }\n' % (j, j, j, j, j, j, j, j, j, j, j, outbase, j, j, j))
+                    '%spcap_write(o%d, r%d); }\n' % (j, j, j, j, j, j, j, j, j, j, j, outbase, j, touch("r%d" % j) if look else "", j, j))
         else:
             arg = "" if c["n"] == -1 else ", %d" % c["n"]
             src += ('let a%d = pcap_read_all(f%s);\nif is_error(a%d) { push(OBS, [%d, "E"]); } else { push(OBS, [%d, "A", len(a%d)]); '
                     'let o%d = pcap_open("%s.%d", "w"); let i%d = 0; while i%d < len(a%d) { let q = a%d[i%d]; '
-                    'push(OBS, [%d, "R", q.sec, q.usec, q.caplen, q.wirelen]); pcap_write(o%d, q); i%d = i%d + 1; } }\n'
-                    % (j, arg, j, j, j, j, j, outbase, j, j, j, j, j, j, j, j, j, j))
+                    'push(OBS, [%d, "R", q.sec, q.usec, q.caplen, q.wirelen]); %spcap_write(o%d, q); i%d = i%d + 1; } }\n'
+                    % (j, arg, j, j, j, j, j, outbase, j, j, j, j, j, j, j, touch("q") if look else "", j, j, j))
     src += "}\n"
     if via_stdin:
         # the run goes through the binary: the observations are printed, one JSON array per line
@@ -155,7 +165,7 @@ def run(rep, tier, seed):
                 open(it["path"], "wb").write(data)
                 # every 4th history reads the same bytes as a stream on standard input (pcap_stream), through the binary
                 it["via_stdin"] = (len(items) % 4 == 3) and not big
-                it["src"] = script_for(it["path"], it["outbase"], calls, via_stdin=it["via_stdin"])
+                it["src"] = script_for(it["path"], it["outbase"], calls, via_stdin=it["via_stdin"], look=(len(items) % 3 == 1))
                 if it["via_stdin"]:
                     it["tag"] += " via-stdin"
                 items.append(it)
